@@ -276,6 +276,25 @@ def run_case(case):
                         if got[0] != 'exc' or got[1]['type'] != 'IndexError' or got[1]['args'] != ['pop index out of range']:
                             viol.append({'mech': 'proxy/server-side-proxy-call-differs', 'msg': f'list.pop(10**6) through a proxy used inside the server gave {str(got)[:300]}, a direct call raises IndexError("pop index out of range")'})
                             return
+                        # the same hosted list handed out a second time; the newer proxy goes away again: the first one must keep working
+                        r = call(0, 'b', 'share_own', [], None, 'L2')
+                        if r[0] == 'proxy':
+                            call(0, 'L2', 'append', [('via-second', rd)])
+                            local.append(('via-second', rd))
+                            del reg['L2']
+                            import gc
+
+                            gc.collect()
+                            call(0, 'b', 'n_kept', [])  # one more request on the connection (the server thread lets go of its last reply)
+                            v = ('after-second-proxy-dropped', rd)
+                            got = call(rng.choice([0] + list(agents)), 'L', 'append', [v])
+                            local.append(v)
+                            got = call(0, 'L', '__getitem__', [slice(None)])
+                            obs['rehosted_then_dropped'] = obs.get('rehosted_then_dropped', 0) + 1
+                            if got != ('val', local):
+                                viol.append({'mech': 'proxy/first-proxy-broken-after-second-handed-out-and-dropped', 'msg': f'after the same hosted list was handed out again by managed_list() and that second proxy dropped, '
+                                             f'a call through the first proxy gave {str(got)[:300]}; a direct call gives the list {str(local)[:120]}'})
+                                return
                         r = call(0, 'b', 'make_own_dict', [], None, 'D')
                         share('D', list(agents))
                         for j in range(6):
